@@ -10,7 +10,11 @@ SPEC = dict(
              # the minimum the floor is measured against is the configured minPwm (else the measured one) also after RPM curve
              # data is attached: the limits driver (C13) checks GetMinPwm after every attach / non-forced set
              dict(name='limits', drv_mod='Drv.Limits', drv_file='Drv/Limits.v', shard=150,
-                  args={'quick': ['n=500'], 'thorough': ['n=8000']}, timeout={'quick': 600, 'thorough': 3000})],
+                  args={'quick': ['n=500'], 'thorough': ['n=8000']}, timeout={'quick': 600, 'thorough': 3000}),
+             # ... and through the real start-up (Run: persistence -> attach -> regulate): the minimum a neverStop fan is started with
+             # is the configured one, else the one MEASURED in the stored curve (no interpolated values), and every request stays above it
+             dict(name='limitsrun', drv_mod='Drv.LimitsRun', drv_file='Drv/LimitsRun.v', shard=40,
+                  args={'quick': [], 'thorough': ['reps=8']}, timeout={'quick': 600, 'thorough': 3000})],
     rule='seeded histories of 1..40 control cycles with interleaved RPM polls, external interference and device faults on real '
          'HwMonFan/FileFan/CmdFan objects driven through the real UpdateFanSpeed/measureRpm; generators random/stall/const/ext/fault; '
          'PWM maps identity/quantiser/sparse/monotone-sparse/plateau; algorithms direct, rate-limited, PID (default and random gains); '
